@@ -215,6 +215,7 @@ class PostgreSQLQueryBuilder(QueryBuilder):
         else:
             querystring = super().get_sql(ctx)
         if self._returns:
-            returning_ctx = ctx.copy(with_namespace=self._update_table and self.from_)
+            # the statement's own qualification decision holds for RETURNING too; UPDATE always qualifies
+            returning_ctx = ctx.copy(with_namespace=ctx.with_namespace or bool(self._update_table))
             querystring += self._returning_sql(returning_ctx)
         return querystring
